@@ -20,17 +20,35 @@ package cctp
 
 // Init writes every field, with the documented defaults for absent optional fields (flags true, 8000, nonce 0,
 // threshold 1), and every list entry under its key. It panics on an explicit threshold of 0 (precondition).
+// Under the distinctness GenesisState.Validate establishes (C17.valid.*), the entries written are exactly the list's:
+// every entry is stored with its own fields (C17.init.*), and no key is present afterwards that was neither present
+// before nor the key of some list entry (C17.only.*).
+//@ macro aK(j) := genState.AttesterList[j].Attester
+//@ macro lL(j) := genState.PerMessageBurnLimitList[j]
+//@ macro pL(j) := genState.TokenPairList[j]
+//@ macro nL(j) := genState.UsedNoncesList[j]
+//@ macro mL(j) := genState.TokenMessengerList[j]
 //@ func InitGenesis(ctx, k, genState) ()
 //@ serves C17
+//@ requires[C17.valid.attesters] forall j: int :: forall k: int :: 0 <= j && j < k && k < len(genState.AttesterList) ==> aK(j) != aK(k)
+//@ requires[C17.valid.limits]    forall j: int :: forall k: int :: 0 <= j && j < k && k < len(genState.PerMessageBurnLimitList) ==> lL(j).Denom != lL(k).Denom
+//@ requires[C17.valid.pairs]     forall j: int :: forall k: int :: 0 <= j && j < k && k < len(genState.TokenPairList) ==> !(pL(j).RemoteDomain == pL(k).RemoteDomain && pL(j).RemoteToken == pL(k).RemoteToken)
+//@ requires[C17.valid.nonces]    forall j: int :: forall k: int :: 0 <= j && j < k && k < len(genState.UsedNoncesList) ==> !(nL(j).SourceDomain == nL(k).SourceDomain && nL(j).Nonce == nL(k).Nonce)
+//@ requires[C17.valid.messengers] forall j: int :: forall k: int :: 0 <= j && j < k && k < len(genState.TokenMessengerList) ==> mL(j).DomainId != mL(k).DomainId
 //@ requires[C17.threshold] genState.SignatureThreshold == nil || genState.SignatureThreshold.Amount != 0
 //@ ensures[C17.init.roles]   st.owner.set && st.owner.val == genState.Owner && st.attesterManager.set && st.attesterManager.val == genState.AttesterManager && st.pauser.set && st.pauser.val == genState.Pauser && st.tokenController.set && st.tokenController.val == genState.TokenController
 //@ ensures[C17.init.flags]   st.bmPaused.set && st.bmPaused.val == (genState.BurningAndMintingPaused == nil ? true : genState.BurningAndMintingPaused.Paused) && st.srPaused.set && st.srPaused.val == (genState.SendingAndReceivingMessagesPaused == nil ? true : genState.SendingAndReceivingMessagesPaused.Paused)
 //@ ensures[C17.init.scalars] st.maxBody.set && st.maxBody.val == (genState.MaxMessageBodySize == nil ? 8000 : genState.MaxMessageBodySize.Amount) && st.nextNonce.set && st.nextNonce.val == (genState.NextAvailableNonce == nil ? 0 : genState.NextAvailableNonce.Nonce) && st.threshold.set && st.threshold.val == (genState.SignatureThreshold == nil ? 1 : genState.SignatureThreshold.Amount)
-//@ ensures[C17.init.attesters]  forall j: int :: 0 <= j && j < len(genState.AttesterList) ==> st.attesters.has[genState.AttesterList[j].Attester]
-//@ ensures[C17.init.limits]     forall j: int :: 0 <= j && j < len(genState.PerMessageBurnLimitList) ==> st.burnLimits.has[genState.PerMessageBurnLimitList[j].Denom]
-//@ ensures[C17.init.tokenPairs] forall j: int :: 0 <= j && j < len(genState.TokenPairList) ==> st.tokenPairs.has[genState.TokenPairList[j].RemoteDomain][genState.TokenPairList[j].RemoteToken]
-//@ ensures[C17.init.usedNonces] forall j: int :: 0 <= j && j < len(genState.UsedNoncesList) ==> st.usedNonces.has[genState.UsedNoncesList[j].SourceDomain][genState.UsedNoncesList[j].Nonce]
-//@ ensures[C17.init.messengers] forall j: int :: 0 <= j && j < len(genState.TokenMessengerList) ==> st.messengers.has[genState.TokenMessengerList[j].DomainId]
+//@ ensures[C17.init.attesters]  forall j: int :: 0 <= j && j < len(genState.AttesterList) ==> st.attesters.has[aK(j)] && st.attesters.val[aK(j)] == aK(j)
+//@ ensures[C17.only.attesters]  forall a: bytes :: st.attesters.has[a] ==> old(st.attesters.has[a]) || exists j: int :: 0 <= j && j < len(genState.AttesterList) && aK(j) == a
+//@ ensures[C17.init.limits] forall j: int :: 0 <= j && j < len(genState.PerMessageBurnLimitList) ==> st.burnLimits.has[lL(j).Denom] && st.burnLimits.denom[lL(j).Denom] == lL(j).Denom && !st.burnLimits.nil[lL(j).Denom] && st.burnLimits.amt[lL(j).Denom] == (lL(j).Amount.isnil ? 0 : lL(j).Amount.v)
+//@ ensures[C17.only.limits] forall d: bytes :: st.burnLimits.has[d] ==> old(st.burnLimits.has[d]) || exists j: int :: 0 <= j && j < len(genState.PerMessageBurnLimitList) && lL(j).Denom == d
+//@ ensures[C17.init.tokenPairs] forall j: int :: 0 <= j && j < len(genState.TokenPairList) ==> st.tokenPairs.has[pL(j).RemoteDomain][pL(j).RemoteToken] && st.tokenPairs.local[pL(j).RemoteDomain][pL(j).RemoteToken] == pL(j).LocalToken && st.tokenPairs.rdom[pL(j).RemoteDomain][pL(j).RemoteToken] == pL(j).RemoteDomain && st.tokenPairs.rtok[pL(j).RemoteDomain][pL(j).RemoteToken] == pL(j).RemoteToken
+//@ ensures[C17.only.tokenPairs] forall d: uint32 :: forall t: bytes :: st.tokenPairs.has[d][t] ==> old(st.tokenPairs.has[d][t]) || exists j: int :: 0 <= j && j < len(genState.TokenPairList) && pL(j).RemoteDomain == d && pL(j).RemoteToken == t
+//@ ensures[C17.init.usedNonces] forall j: int :: 0 <= j && j < len(genState.UsedNoncesList) ==> st.usedNonces.has[nL(j).SourceDomain][nL(j).Nonce] && st.usedNonces.dom[nL(j).SourceDomain][nL(j).Nonce] == nL(j).SourceDomain && st.usedNonces.nonce[nL(j).SourceDomain][nL(j).Nonce] == nL(j).Nonce
+//@ ensures[C17.only.usedNonces] forall d: uint32 :: forall n: uint64 :: st.usedNonces.has[d][n] ==> old(st.usedNonces.has[d][n]) || exists j: int :: 0 <= j && j < len(genState.UsedNoncesList) && nL(j).SourceDomain == d && nL(j).Nonce == n
+//@ ensures[C17.init.messengers] forall j: int :: 0 <= j && j < len(genState.TokenMessengerList) ==> st.messengers.has[mL(j).DomainId] && st.messengers.addr[mL(j).DomainId] == mL(j).Address && st.messengers.dom[mL(j).DomainId] == mL(j).DomainId
+//@ ensures[C17.only.messengers] forall d: uint32 :: st.messengers.has[d] ==> old(st.messengers.has[d]) || exists j: int :: 0 <= j && j < len(genState.TokenMessengerList) && mL(j).DomainId == d
 // Loops are named by the list they run over, so reordering them does not move their invariants;
 // loopidx is the number of elements a loop has finished (range or index loop alike).
 //@ loop 0 over AttesterList
@@ -38,8 +56,13 @@ package cctp
 //@ loop 2 over TokenPairList
 //@ loop 3 over UsedNoncesList
 //@ loop 4 over TokenMessengerList
-//@ loop 0 invariant[attesters]  loopidx >= 0 && loopidx <= len(genState.AttesterList) && forall j: int :: 0 <= j && j < loopidx ==> st.attesters.has[genState.AttesterList[j].Attester]
-//@ loop 1 invariant[limits]     loopidx >= 0 && loopidx <= len(genState.PerMessageBurnLimitList) && forall j: int :: 0 <= j && j < loopidx ==> st.burnLimits.has[genState.PerMessageBurnLimitList[j].Denom]
-//@ loop 2 invariant[tokenPairs] loopidx >= 0 && loopidx <= len(genState.TokenPairList) && forall j: int :: 0 <= j && j < loopidx ==> st.tokenPairs.has[genState.TokenPairList[j].RemoteDomain][genState.TokenPairList[j].RemoteToken]
-//@ loop 3 invariant[usedNonces] loopidx >= 0 && loopidx <= len(genState.UsedNoncesList) && forall j: int :: 0 <= j && j < loopidx ==> st.usedNonces.has[genState.UsedNoncesList[j].SourceDomain][genState.UsedNoncesList[j].Nonce]
-//@ loop 4 invariant[messengers] loopidx >= 0 && loopidx <= len(genState.TokenMessengerList) && forall j: int :: 0 <= j && j < loopidx ==> st.messengers.has[genState.TokenMessengerList[j].DomainId]
+//@ loop 0 invariant[attesters]  loopidx >= 0 && loopidx <= len(genState.AttesterList) && forall j: int :: 0 <= j && j < loopidx ==> st.attesters.has[aK(j)] && st.attesters.val[aK(j)] == aK(j)
+//@ loop 0 invariant[attesters.only] forall a: bytes :: st.attesters.has[a] ==> old(st.attesters.has[a]) || exists j: int :: 0 <= j && j < loopidx && aK(j) == a
+//@ loop 1 invariant[limits] loopidx >= 0 && loopidx <= len(genState.PerMessageBurnLimitList) && forall j: int :: 0 <= j && j < loopidx ==> st.burnLimits.has[lL(j).Denom] && st.burnLimits.denom[lL(j).Denom] == lL(j).Denom && !st.burnLimits.nil[lL(j).Denom] && st.burnLimits.amt[lL(j).Denom] == (lL(j).Amount.isnil ? 0 : lL(j).Amount.v)
+//@ loop 1 invariant[limits.only] forall d: bytes :: st.burnLimits.has[d] ==> old(st.burnLimits.has[d]) || exists j: int :: 0 <= j && j < loopidx && lL(j).Denom == d
+//@ loop 2 invariant[tokenPairs] loopidx >= 0 && loopidx <= len(genState.TokenPairList) && forall j: int :: 0 <= j && j < loopidx ==> st.tokenPairs.has[pL(j).RemoteDomain][pL(j).RemoteToken] && st.tokenPairs.local[pL(j).RemoteDomain][pL(j).RemoteToken] == pL(j).LocalToken && st.tokenPairs.rdom[pL(j).RemoteDomain][pL(j).RemoteToken] == pL(j).RemoteDomain && st.tokenPairs.rtok[pL(j).RemoteDomain][pL(j).RemoteToken] == pL(j).RemoteToken
+//@ loop 2 invariant[tokenPairs.only] forall d: uint32 :: forall t: bytes :: st.tokenPairs.has[d][t] ==> old(st.tokenPairs.has[d][t]) || exists j: int :: 0 <= j && j < loopidx && pL(j).RemoteDomain == d && pL(j).RemoteToken == t
+//@ loop 3 invariant[usedNonces] loopidx >= 0 && loopidx <= len(genState.UsedNoncesList) && forall j: int :: 0 <= j && j < loopidx ==> st.usedNonces.has[nL(j).SourceDomain][nL(j).Nonce] && st.usedNonces.dom[nL(j).SourceDomain][nL(j).Nonce] == nL(j).SourceDomain && st.usedNonces.nonce[nL(j).SourceDomain][nL(j).Nonce] == nL(j).Nonce
+//@ loop 3 invariant[usedNonces.only] forall d: uint32 :: forall n: uint64 :: st.usedNonces.has[d][n] ==> old(st.usedNonces.has[d][n]) || exists j: int :: 0 <= j && j < loopidx && nL(j).SourceDomain == d && nL(j).Nonce == n
+//@ loop 4 invariant[messengers] loopidx >= 0 && loopidx <= len(genState.TokenMessengerList) && forall j: int :: 0 <= j && j < loopidx ==> st.messengers.has[mL(j).DomainId] && st.messengers.addr[mL(j).DomainId] == mL(j).Address && st.messengers.dom[mL(j).DomainId] == mL(j).DomainId
+//@ loop 4 invariant[messengers.only] forall d: uint32 :: st.messengers.has[d] ==> old(st.messengers.has[d]) || exists j: int :: 0 <= j && j < loopidx && mL(j).DomainId == d
